@@ -1182,10 +1182,15 @@ pub fn generate(cfg: &GenCfg, rng: &mut Rng) -> MSpec {
         let n = rng.below(12) as usize;
         let mut bytes: Vec<u8> = next_marker().to_le_bytes()[..n.min(8)].to_vec();
         bytes.push(i as u8);
+        // now and then a segment without bytes (it still owns an index, and an active one is still bounds-checked)
+        let empty = rng.chance(1, 10);
+        if empty {
+            bytes.clear();
+        }
         let mode = if !all_mems.is_empty() && (!f.bulk || rng.chance(1, 2)) {
             let mem = if f.multimem { rng.below(all_mems.len() as u64) as u32 } else { 0 };
             let is64 = all_mems[mem as usize].is64;
-            let off = rng.below(200) as i64 * 8;
+            let off = if empty && rng.bool() { 0 } else { rng.below(200) as i64 * 8 };
             DataMode::Active { mem, offset: if is64 { CExpr::I64(off) } else { CExpr::I32(off as i32) } }
         } else if f.bulk {
             DataMode::Passive
@@ -1193,6 +1198,20 @@ pub fn generate(cfg: &GenCfg, rng: &mut Rng) -> MSpec {
             continue;
         };
         m.datas.push(DataSpec { mode, bytes, explicit_mem: f.multimem && rng.chance(1, 4) });
+    }
+    // overlapping active segments: a later one whose trailing zeros lie on non-zero bytes of an earlier one (the
+    // zeros are part of the initialisation)
+    if nd > 0 && rng.chance(1, 4) {
+        let first = m.datas.iter().find_map(|d| if let DataMode::Active { mem, offset } = &d.mode { Some((*mem, offset.clone())) } else { None });
+        if let Some((mem, offset)) = first {
+            let (a, b) = match offset {
+                CExpr::I64(o) => (CExpr::I64(o + 64), CExpr::I64(o + 66)),
+                CExpr::I32(o) => (CExpr::I32(o + 64), CExpr::I32(o + 66)),
+                other => (other.clone(), other),
+            };
+            m.datas.push(DataSpec { mode: DataMode::Active { mem, offset: a }, bytes: vec![0xA1, 0xA2, 0xA3, 0xA4, 0xA5, 0xA6], explicit_mem: false });
+            m.datas.push(DataSpec { mode: DataMode::Active { mem, offset: b }, bytes: vec![0xB1, 0, 0], explicit_mem: false });
+        }
     }
     // --- bodies
     let mut env = Env {
@@ -1405,6 +1424,12 @@ pub fn gen_odd_known_customs(m: &mut MSpec, rng: &mut Rng) {
             _ => junk(rng, 24),
         };
         m.customs.push(CustomSpec { name: "name".into(), data, before: *rng.pick(&places), name_len_pad: 0 });
+    }
+    if rng.chance(1, 4) {
+        // two well-formed name sections (module-name subsection only)
+        for k in [b'1', b'2'] {
+            m.customs.push(CustomSpec { name: "name".into(), data: vec![0x00, 0x03, 0x02, b'm', k], before: *rng.pick(&places), name_len_pad: 0 });
+        }
     }
     if rng.chance(1, 3) {
         m.customs.push(CustomSpec { name: "target_features".into(), data: junk(rng, 12), before: *rng.pick(&places), name_len_pad: 0 });
